@@ -9,6 +9,9 @@
 #include <climits>
 #include <set>
 #include <stdexcept>
+#include <type_traits>
+#include <sys/wait.h>
+#include <fcntl.h>
 
 static_assert(CHAR_MIN < 0, "model assumes plain char is signed");
 static_assert(__BYTE_ORDER__ == __ORDER_LITTLE_ENDIAN__, "model assumes little-endian byte lanes");
@@ -80,8 +83,9 @@ static bool only(const std::string &s, const std::string &alphabet)
 }
 static std::string str(const bytes &m) { return std::string(m.begin(), m.end()); }
 static bytes byt(const std::string &s) { return bytes(s.begin(), s.end()); }
-static const std::string HEXA = "0123456789ABCDEF";
-static const std::string HEXANY = "0123456789ABCDEFabcdef";
+// (constructed with priority 101, in front of the pre-main battery object below, which uses them)
+__attribute__((init_priority(101))) static const std::string HEXA = "0123456789ABCDEF";
+__attribute__((init_priority(101))) static const std::string HEXANY = "0123456789ABCDEFabcdef";
 // strtoul-based parse of a hex text of either case (pairs -> bytes, odd tail dropped)
 static bytes ref_unhex_anycase(const std::string &t)
 {
@@ -100,6 +104,45 @@ static std::string ascii_upper(std::string t)
     for (char &c : t) if (c >= 'a' && c <= 'z') c = (char)(c - 32);
     return t;
 }
+
+
+// FNV-1a, 64 bit: digest of a long output (the driver computes the same)
+static uint64_t fnv64(const uint8_t *p, size_t n)
+{
+    uint64_t h = 0xcbf29ce484222325ull;
+    for (size_t i = 0; i < n; i++) { h ^= p[i]; h *= 0x100000001b3ull; }
+    return h;
+}
+static uint64_t fnv64(const std::string &s) { return fnv64((const uint8_t *)s.data(), s.size()); }
+// the byte pattern of the long / every-length ops: data[i] = (a*i + b) mod 256
+static bytes pattern(size_t n, unsigned a, unsigned b)
+{
+    bytes m(n);
+    for (size_t i = 0; i < n; i++) m[i] = (uint8_t)(a * i + b);
+    return m;
+}
+// widths and signedness of the types the model fixes ("s4" = signed, 4 bytes)
+template <class T> static std::string tw()
+{
+    return std::string(std::is_signed<T>::value ? "s" : "u") + std::to_string(sizeof(T));
+}
+template <class R, class A, class B, class C> static B arg2_of(R (*)(A, B, C));
+template <class R, class A, class B> static B arg2_of(R (*)(A, B));
+template <class R, class... A> static R ret_of(R (*)(A...));
+// the 48 bytes whose sextets are 0,1,...,63: encoding them prints the alphabet the build uses
+static bytes sextet_ramp()
+{
+    bytes m;
+    for (unsigned g = 0; g < 64; g += 4)
+    {
+        unsigned v = (g << 18) | ((g + 1) << 12) | ((g + 2) << 6) | (g + 3);
+        m.push_back((uint8_t)(v >> 16)); m.push_back((uint8_t)(v >> 8)); m.push_back((uint8_t)v);
+    }
+    return m;
+}
+static bool main_entered = false;            // constant-initialised; set first thing in main()
+static int make_marker() { return (int)getpid() | 1; }
+static int default_priority_marker = make_marker(); // dynamic, default priority: still 0 while the battery runs
 
 // ---------------------------------------------------------------- run
 template <class T> static void fixed_to(const std::string &arg, out &o, void (*to_hex)(char *, T), T (*from_hex)(const char *))
@@ -156,9 +199,16 @@ template <class T> static void fixed_from(const std::string &arg, out &o, void (
     }
 }
 
+static void run_premain(const std::vector<std::string> &w, out &o);
+
 static void run_op(const std::vector<std::string> &w, const std::string &, out &o)
 {
     const std::string &op = w[0];
+    if (op == "premain")
+    {
+        run_premain(w, o);
+        return;
+    }
     if (op == "reset")
     {
         o.result = "ok";
@@ -177,12 +227,187 @@ static void run_op(const std::vector<std::string> &w, const std::string &, out &
         o.result = hexn((uint64_t)std::string().max_size(), 16);
         return;
     }
+    if (op == "alphas")
+    {
+        // both alphabets as the build prints them: the 48 bytes whose sextets are 0..63
+        bytes m = sextet_ramp();
+        exact_buf in(m);
+        std::string a = igris::base64_encode(in.p, m.size()), u = igris::base64url_encode(in.p, m.size());
+        o.result = hex(a) + " " + hex(u);
+        if (a != STD_ALPHA) o.fail("base64_encode of the sextets 0..63 is not RFC 4648 table 1");
+        if (u != URL_ALPHA) o.fail("base64url_encode of the sextets 0..63 is not RFC 4648 table 2");
+        o.tag("alpha");
+        return;
+    }
+    if (op == "widths")
+    {
+        std::string (*henc_p)(const uint8_t *, size_t) = igris::hexascii_encode;
+        std::string (*benc_p)(const uint8_t *, size_t) = igris::base64_encode;
+        std::string (*buenc_p)(const uint8_t *, size_t) = igris::base64url_encode;
+        o.result = "int:" + tw<int>() + " size_t:" + tw<size_t>() + " char:" + tw<char>() +
+                   " hexascii_encode.size:" + tw<decltype(arg2_of(&hexascii_encode))>() +
+                   " hexascii_decode.size:" + tw<decltype(arg2_of(&hexascii_decode))>() +
+                   " hex2half:" + tw<decltype(hex2half('0'))>() + " half2hex:" + tw<decltype(half2hex(0))>() +
+                   " hex2byte:" + tw<decltype(hex2byte('0', '0'))>() + " HIHALF:" + tw<decltype(HIHALF(0))>() +
+                   " hex_to_uint8:" + tw<decltype(hex_to_uint8(""))>() + " hex_to_uint16:" + tw<decltype(hex_to_uint16(""))>() +
+                   " hex_to_uint32:" + tw<decltype(hex_to_uint32(""))>() + " hex_to_uint64:" + tw<decltype(hex_to_uint64(""))>() +
+                   " igris.hexascii_encode.size:" + tw<decltype(arg2_of(henc_p))>() +
+                   " base64_encode.size:" + tw<decltype(arg2_of(benc_p))>() + " base64url_encode.size:" + tw<decltype(arg2_of(buenc_p))>() +
+                   " string.size:" + tw<std::string::size_type>();
+        o.tag("widths");
+        return;
+    }
+    if (op == "lanes")
+    {
+        // which branch of access.h was compiled: the byte offset every lane macro addresses
+        uint16_t a = 0x0102; uint32_t b = 0x01020304u; uint64_t c = 0x0102030405060708ull;
+        auto off = [](void *base, uint8_t &r) { return std::to_string((int)(&r - (uint8_t *)base)); };
+        o.result = off(&a, UINT16_HI(a)) + " " + off(&a, UINT16_LO(a)) + " " +
+                   off(&b, UINT32_HHI(b)) + " " + off(&b, UINT32_HLO(b)) + " " + off(&b, UINT32_LHI(b)) + " " + off(&b, UINT32_LLO(b)) + " " +
+                   off(&c, UINT64_HHHI(c)) + " " + off(&c, UINT64_HHLO(c)) + " " + off(&c, UINT64_HLHI(c)) + " " + off(&c, UINT64_HLLO(c)) + " " +
+                   off(&c, UINT64_LHHI(c)) + " " + off(&c, UINT64_LHLO(c)) + " " + off(&c, UINT64_LLHI(c)) + " " + off(&c, UINT64_LLLO(c));
+        // what the names mean on either byte order: HI.. = most significant lane
+        if (UINT16_HI(a) != 1 || UINT16_LO(a) != 2) o.fail("UINT16_HI/LO are not the high/low byte of the value");
+        if (UINT32_HHI(b) != 1 || UINT32_HLO(b) != 2 || UINT32_LHI(b) != 3 || UINT32_LLO(b) != 4) o.fail("UINT32 lanes are not the bytes of the value, most significant first");
+        if (UINT64_HHHI(c) != 1 || UINT64_HHLO(c) != 2 || UINT64_HLHI(c) != 3 || UINT64_HLLO(c) != 4 || UINT64_LHHI(c) != 5 ||
+            UINT64_LHLO(c) != 6 || UINT64_LLHI(c) != 7 || UINT64_LLLO(c) != 8) o.fail("UINT64 lanes are not the bytes of the value, most significant first");
+        o.tag("lanes");
+        return;
+    }
+    if (op == "hlong" && w.size() == 4)
+    {
+        // a long input through every hexascii routine; the result is a digest
+        size_t n = (size_t)strtoull(w[1].c_str(), 0, 10);
+        bytes m = pattern(n, (unsigned)atoi(w[2].c_str()), (unsigned)atoi(w[3].c_str()));
+        exact_buf in(m), outb(2 * n);
+        hexascii_encode(in.p, (int)n, outb.p);
+        std::string c_text((char *)outb.p, 2 * n);
+        std::string cpp_text = igris::hexascii_encode(in.p, n);
+        exact_buf back(n);
+        hexascii_decode(outb.p, (int)(2 * n), back.p);
+        std::string (*sdec)(std::string const &) = igris::hexascii_decode;
+        std::string sd = sdec ? sdec(cpp_text) : std::string();
+        o.result = std::to_string(c_text.size()) + " " + hexn(fnv64(c_text), 16) + " " + hexn(fnv64(cpp_text), 16) + " " +
+                   std::to_string(n) + " " + hexn(fnv64(back.p, n), 16) + " " + hexn(fnv64(sd), 16);
+        if (c_text != ref_hex(m) || cpp_text != c_text) o.fail("hlong: encoders differ from the upper-case hex reference");
+        if (back.vec() != m || byt(sd) != m) o.fail("hlong: decode(encode(x)) != x");
+        // in place: out == indata
+        exact_buf both(byt(c_text));
+        hexascii_decode(both.p, (int)(2 * n), both.p);
+        if (memcmp(both.p, m.data(), n) != 0 || memcmp(both.p + n, c_text.data() + n, n) != 0) o.fail("hlong: in-place decode");
+        o.tag("long");
+        if (n >= 300 * 1024) o.tag("long300k");
+        return;
+    }
+    if (op == "blong" && w.size() == 5)
+    {
+        bool url = w[1] == "url";
+        const char *alpha = url ? URL_ALPHA : STD_ALPHA;
+        size_t n = (size_t)strtoull(w[2].c_str(), 0, 10);
+        bytes m = pattern(n, (unsigned)atoi(w[3].c_str()), (unsigned)atoi(w[4].c_str()));
+        exact_buf in(m);
+        std::string e = url ? igris::base64url_encode(in.p, n) : igris::base64_encode(in.p, n);
+        std::string d = url ? igris::base64url_decode(e) : igris::base64_decode(e);
+        o.result = std::to_string(e.size()) + " " + hexn(fnv64(e), 16) + " " + std::to_string(d.size()) + " " + hexn(fnv64(d), 16);
+        if (e != ref_b64_encode(m, alpha)) o.fail("blong: encoder differs from RFC 4648");
+        if (e.size() != 4 * ((n + 2) / 3)) o.fail("blong: length != 4*ceil(n/3)");
+        if (byt(d) != m) o.fail("blong: decode(encode(x)) != x");
+        if ((url ? igris::base64url_encode(str(m)) : igris::base64_encode(str(m))) != e) o.fail("blong: string overload differs");
+        o.tag("long");
+        if (n >= 300 * 1024) o.tag("long300k");
+        o.tag(n % 3 == 0 ? "pad0" : n % 3 == 1 ? "pad2" : "pad1");
+        return;
+    }
     if (w.size() < 2)
     {
         o.result = "bad-op";
         return;
     }
     const std::string &arg = w[1];
+    if (op == "nib")
+    {
+        // access.h HIHALF / LOHALF on every byte
+        uint8_t b = (uint8_t)strtoul(arg.c_str(), 0, 16);
+        uint8_t h = HIHALF(b), l = LOHALF(b);
+        o.result = hexn(h, 2) + " " + hexn(l, 2);
+        if (h != b / 16 || l != b % 16) o.fail("HIHALF/LOHALF are not b/16, b%16");
+        if (half2hex(h) != HEXA[b / 16] || half2hex(l) != HEXA[b % 16]) o.fail("half2hex(HIHALF/LOHALF) is not the hex digit");
+        o.tag("nib");
+        return;
+    }
+    if (op == "hencm" && w.size() == 4)
+    {
+        // hexascii_encode with an explicit int size (a prefix of the mapped data); out mapped exactly or with spare room
+        int size = atoi(w[1].c_str());
+        size_t cap = (size_t)atoi(w[2].c_str());
+        bytes m = unhex(w[3]);
+        exact_buf in(m), outb(cap);
+        hexascii_encode(in.p, size, outb.p);
+        size_t cnt = 2 * (size_t)size;
+        o.result = hex(outb.p, cnt < cap ? cnt : cap);
+        for (size_t k = cnt; k < cap; k++)
+            if (outb.p[k] != 0xA5) { o.fail("hexascii_encode wrote out[" + std::to_string(k) + "], beyond 2*size"); break; }
+        if (std::string((char *)outb.p, cnt) != ref_hex(bytes(m.begin(), m.begin() + size))) o.fail("hexascii_encode(size) != hex of the first size bytes");
+        if (size == 0) o.tag("size0");
+        if ((size_t)size < m.size()) o.tag("prefix");
+        if (cap > cnt) o.tag("sparecap");
+        return;
+    }
+    if (op == "reuse" && w.size() == 3)
+    {
+        // repeated calls on ONE set of objects (same input buffer address, same length, same out buffer,
+        // same std::string objects) with changed contents between the calls: a result cached by address
+        // or length, or a table built from the first input, shows in the second answers
+        bytes A = unhex(w[1]), B = unhex(w[2]);
+        if (A.size() != B.size()) { o.result = "bad-op"; return; }
+        size_t n = A.size();
+        exact_buf buf(A), outb(2 * n), back(n);
+        std::string text, b64, b64u;
+        std::string (*sdec)(std::string const &) = igris::hexascii_decode;
+        std::string r[2][7];
+        for (int round = 0; round < 2; round++)
+        {
+            const bytes &m = round ? B : A;
+            if (n) memcpy(buf.p, m.data(), n);
+            hexascii_encode(buf.p, (int)n, outb.p);
+            r[round][0] = std::string((char *)outb.p, 2 * n);
+            r[round][1] = igris::hexascii_encode(buf.p, n);
+            r[round][2] = igris::base64_encode(buf.p, n);
+            r[round][3] = igris::base64url_encode(buf.p, n);
+            text.assign(r[round][1]); // same object, same size: same character array
+            b64.assign(r[round][2]);
+            b64u.assign(r[round][3]);
+            hexascii_decode(outb.p, (int)(2 * n), back.p);
+            r[round][4] = std::string((char *)back.p, n) + (sdec ? sdec(text) : std::string("?"));
+            r[round][5] = igris::base64_decode(b64);
+            r[round][6] = igris::base64url_decode(b64u);
+            if (r[round][0] != ref_hex(m) || r[round][1] != ref_hex(m)) o.fail("reuse: hex encoders, call " + std::to_string(round + 1));
+            if (r[round][2] != ref_b64_encode(m, STD_ALPHA) || r[round][3] != ref_b64_encode(m, URL_ALPHA)) o.fail("reuse: base64 encoders, call " + std::to_string(round + 1) + " on the same buffer");
+            if (r[round][4] != str(m) + str(m) || r[round][5] != str(m) || r[round][6] != str(m)) o.fail("reuse: decoders, call " + std::to_string(round + 1) + " on the same objects: decode(encode(x)) != x");
+        }
+        o.result = hex(r[1][0]) + " " + hex(r[1][1]) + " " + hex(r[1][2]) + " " + hex(r[1][3]) + " " + hex(r[1][4]) + " " + hex(r[1][5]) + " " + hex(r[1][6]);
+        o.tag("reuse");
+        return;
+    }
+    if (op == "hdeci" && w.size() == 3)
+    {
+        // in place: hexascii_decode(buf, size, buf).  The pair is read before its byte is stored and the
+        // store offset never passes the read offset, so the API allows it; result = the whole buffer afterwards
+        int size = atoi(w[1].c_str());
+        bytes t = unhex(w[2]);
+        exact_buf buf(t);
+        hexascii_decode(buf.p, size, buf.p);
+        o.result = hex(buf.vec());
+        size_t cnt = size <= 1 ? 0 : (size_t)(size / 2);
+        exact_buf in(t), sep(cnt);
+        hexascii_decode(in.p, size, sep.p);
+        if (memcmp(buf.p, sep.p, cnt) != 0) o.fail("in-place hexascii_decode != decode into a separate buffer");
+        for (size_t k = cnt; k < t.size(); k++)
+            if (buf.p[k] != t[k]) { o.fail("in-place hexascii_decode changed byte " + std::to_string(k) + " behind the result"); break; }
+        o.tag("inplace");
+        if (size > 0 && size % 2) o.tag("oddsize");
+        return;
+    }
     if (op == "hbyte" && w.size() == 3)
     {
         char hi = (char)strtoul(w[1].c_str(), 0, 16), lo = (char)strtoul(w[2].c_str(), 0, 16);
@@ -421,6 +646,143 @@ static void run_op(const std::vector<std::string> &w, const std::string &, out &
         o.result = "bad-op";
 }
 
+// ---------------------------------------------------------------- pre-main battery
+// A fixed battery through every public codec function, run from the constructor of a namespace-scope
+// object with init_priority(101): before main() and before every default-priority dynamic initialiser
+// of this translation unit (which #includes base64.cpp) and of the library files linked behind it.
+// A codec that depends on something built by a dynamic initialiser (a reverse table filled "at start-up")
+// gives a different answer here.  Op `premain <k> <op...>` reports the stored result of battery line k;
+// the model computes the same call; the oracle compares pre-main == main-time == reference.
+static const char *const PREMAIN_BATTERY[] = {
+    "alpha", "alphas", "widths", "lanes", "maxsz",
+    "nib a7", "nib 0f", "half 0b", "half 07", "hhalf 41", "hhalf 61", "hhalf 39", "hhalf 66", "hbyte 63 37", "hbyte 46 30",
+    "henc 00017f80ff3efb", "henc abcdef23", "hdec 30614239664637", "hdec 4142434445463233", "hdecm 5 2 6142633945", "hdecm -3 0 614263",
+    "hencm 2 4 abcdef", "hencm 0 0 -", "hdeci 6 614263394566", "hdeci 5 6142633945",
+    "hthrow 4000000000000000",
+    "u8 a7", "u16 beef", "u32 89abcdef", "u64 0123456789abcdef", "u64 fedcba9876543210",
+    "x8 6337", "x16 42654566", "x32 3839414243444546", "x64 66656463626139383736353433323130",
+    "benc -", "benc ff", "benc fbff", "benc 666f6f626172", "benc 00017f80ff3efb", "benc fbefbefbefbe",
+    "bdec 5a6d3976596d4679", "bdec 5a6d39765967", "bdec 5a6d39765967203d", "bdec 2b2f2b2f", "bdec 2d5f383d", "bdec 5a673d3d", "bdec 5a6d383d",
+    "buenc -", "buenc fbff", "buenc 00", "buenc fbefbefbefbe", "buenc 666f6f6261",
+    "budec 2d5f383d", "budec 2b2f383d", "budec 41413d3d", "budec 5a6d39765967",
+    "reuse 00017f80ff3efb fbefbe01020304", "reuse 666f6f 626172",
+    "hlong 1000 7 3", "blong std 1000 7 3", "blong url 1001 13 250", "blong std 1001 251 128", "blong url 1002 5 0",
+};
+static const size_t PREMAIN_N = sizeof PREMAIN_BATTERY / sizeof PREMAIN_BATTERY[0];
+
+// no iostreams before main()
+static std::vector<std::string> split_plain(const std::string &line)
+{
+    std::vector<std::string> w;
+    std::string cur;
+    for (char c : line)
+    {
+        if (c == ' ') { if (!cur.empty()) w.push_back(cur); cur.clear(); }
+        else cur.push_back(c);
+    }
+    if (!cur.empty()) w.push_back(cur);
+    return w;
+}
+
+// Each battery line runs in a forked child (which is just as much "before main()" as its parent): a
+// crash or sanitizer abort of a routine that is not usable yet becomes the result of THAT line instead of
+// killing the harness before it has read its first operation.
+static out run_isolated(const char *line)
+{
+    out o;
+    int fd[2];
+    if (pipe(fd) != 0) { o.result = "CRASH pre-main"; o.fail("harness error: pipe"); return o; }
+    pid_t pid = fork();
+    if (pid == 0)
+    {
+        close(fd[0]);
+        alarm(20);
+        out c;
+        run_op(split_plain(line), line, c);
+        std::string msg = c.result + "\t" + c.oracle + "\t" + c.tags;
+        size_t done = 0;
+        while (done < msg.size())
+        {
+            ssize_t k = write(fd[1], msg.data() + done, msg.size() - done);
+            if (k <= 0) break;
+            done += (size_t)k;
+        }
+        _exit(0);
+    }
+    close(fd[1]);
+    std::string msg;
+    char tmp[4096];
+    ssize_t k;
+    while ((k = read(fd[0], tmp, sizeof tmp)) > 0) msg.append(tmp, (size_t)k);
+    close(fd[0]);
+    int status = 0;
+    if (pid > 0) waitpid(pid, &status, 0);
+    size_t t1 = msg.find('\t'), t2 = t1 == std::string::npos ? t1 : msg.find('\t', t1 + 1);
+    if (pid > 0 && WIFEXITED(status) && WEXITSTATUS(status) == 0 && t2 != std::string::npos)
+    {
+        o.result = msg.substr(0, t1);
+        o.oracle = msg.substr(t1 + 1, t2 - t1 - 1);
+        o.tags = msg.substr(t2 + 1);
+    }
+    else
+    {
+        o.result = "CRASH pre-main";
+        o.fail(std::string("the call crashed (") + (WIFSIGNALED(status) ? "signal " + std::to_string(WTERMSIG(status)) : "sanitizer abort, exit " + std::to_string(WEXITSTATUS(status))) + ")");
+    }
+    return o;
+}
+
+// `gen` mode executes no igris code: skip the battery there
+static bool cmdline_is_gen()
+{
+    char b[512];
+    int f = open("/proc/self/cmdline", O_RDONLY);
+    if (f < 0) return false;
+    ssize_t k = read(f, b, sizeof b - 1);
+    close(f);
+    if (k <= 0) return false;
+    b[k] = 0;
+    size_t a0 = strlen(b);
+    return a0 + 1 < (size_t)k && !strcmp(b + a0 + 1, "gen");
+}
+
+struct premain_battery
+{
+    std::vector<out> res;
+    bool before_main, before_default_init;
+    premain_battery() : before_main(!main_entered), before_default_init(default_priority_marker == 0)
+    {
+        if (cmdline_is_gen()) return;
+        for (size_t k = 0; k < PREMAIN_N; k++) res.push_back(run_isolated(PREMAIN_BATTERY[k]));
+    }
+};
+__attribute__((init_priority(101))) static premain_battery premain_results;
+
+static void run_premain(const std::vector<std::string> &w, out &o)
+{
+    size_t k = w.size() >= 3 ? (size_t)atoi(w[1].c_str()) : PREMAIN_N;
+    std::string inner;
+    for (size_t i = 2; i < w.size(); i++) inner += (i > 2 ? " " : "") + w[i];
+    if (k >= PREMAIN_N || inner != PREMAIN_BATTERY[k] || w[2] == "premain")
+    {
+        o.result = "bad-op";
+        return;
+    }
+    if (premain_results.res.size() != PREMAIN_N) { o.result = "bad-op"; return; }
+    const out &pre = premain_results.res[k];
+    o.result = pre.result;
+    o.tags = pre.tags;
+    o.tag("premain");
+    if (!premain_results.before_main) o.fail("harness error: the battery did not run before main()");
+    if (!premain_results.before_default_init) o.fail("harness error: the battery ran after the default-priority initialisers of this translation unit");
+    if (pre.oracle != "ok") o.fail("called before main(): " + pre.oracle);
+    out now;
+    run_op(std::vector<std::string>(w.begin() + 2, w.end()), inner, now);
+    if (now.result != pre.result)
+        o.fail("'" + inner + "' gives " + pre.result.substr(0, 80) + " when called before main() (from a global constructor) and " + now.result.substr(0, 80) + " when called from main(): the routine depends on a dynamic initialiser");
+    if (now.oracle != "ok") o.fail("called from main(): " + now.oracle);
+}
+
 // ---------------------------------------------------------------- gen
 static bytes rnd_bytes(rng &r, size_t n)
 {
@@ -463,6 +825,70 @@ static std::string rnd_text(rng &r, size_t n)
 }
 static void emit(const char *op, const std::string &payload) { printf("%s %s\n", op, hex(payload).c_str()); }
 static void emit(const char *op, const bytes &payload) { printf("%s %s\n", op, hex(payload).c_str()); }
+
+static void gen_round3(rng &r, bool th)
+{
+    // (0) round 3: what the build contains (both alphabets as printed by the encoders, type widths, the
+    // compiled branch of access.h), the pre-main battery, HIHALF/LOHALF on every byte
+    puts("alphas");
+    puts("widths");
+    puts("lanes");
+    for (size_t k = 0; k < PREMAIN_N; k++) printf("premain %zu %s\n", k, PREMAIN_BATTERY[k]);
+    for (unsigned b = 0; b < 256; b++) printf("nib %02x\n", b);
+    // base64: EVERY length 0..64 x byte patterns data[i] = a*i + b (ramps through all 256 values, constant
+    // strings, descending ramps): every byte value at every position class mod 3, every padding class
+    for (size_t len = 0; len <= 64; len++)
+    {
+        std::vector<std::pair<unsigned, unsigned>> pats;
+        if (th || len <= 4)
+            for (unsigned b = 0; b < 256; b++) { pats.push_back({1u, b}); if (th && b % 4 == 0) pats.push_back({255u, b}); }
+        for (unsigned b : {0x00u, 0x7du, 0x80u, 0xf8u, 0xfbu, 0xffu})
+            for (unsigned a : {0u, 1u, 37u}) pats.push_back({a, b});
+        for (int i = 0; i < 4; i++) pats.push_back({(unsigned)r.below(256), (unsigned)r.below(256)});
+        for (auto &ab : pats)
+        {
+            bytes m = pattern(len, ab.first, ab.second);
+            emit("benc", m);
+            emit("buenc", m);
+            emit("bdec", ref_b64_encode(m, STD_ALPHA));
+            emit("budec", ref_b64_encode(m, URL_ALPHA));
+        }
+        // the other decoder on the same text: the standard decoder stops at '-' / '_', the url decoder takes '+' and '/'
+        bytes m = pattern(len, 0xfbu + (unsigned)len, 0xf8u);
+        emit("bdec", ref_b64_encode(m, URL_ALPHA));
+        emit("budec", ref_b64_encode(m, STD_ALPHA));
+    }
+    // hexascii with explicit sizes: encode a prefix into an exactly sized / spare out; decode in place
+    for (int len = 0; len <= 40; len++)
+        for (int rep = 0; rep < (th ? 8 : 2); rep++)
+        {
+            bytes m = rnd_bytes(r, (size_t)len);
+            int size = rep == 0 ? len : (int)r.range(0, len);
+            printf("hencm %d %zu %s\n", size, 2 * (size_t)size + (r.chance(30) ? (size_t)r.below(3) : 0), hex(m).c_str());
+            std::string t = rep % 2 ? rnd_text(r, (size_t)len) : rnd_any_hex(r, (size_t)len, 50);
+            int dsize = rep == 0 ? len : (int)r.range(-3, len);
+            printf("hdeci %d %s\n", dsize, hex(t).c_str());
+        }
+    // the same objects reused with changed contents
+    for (int len = 0; len <= 48; len++)
+        for (int rep = 0; rep < (th ? 6 : 2); rep++)
+            printf("reuse %s %s\n", hex(rnd_bytes(r, (size_t)len)).c_str(), hex(rnd_bytes(r, (size_t)len)).c_str());
+    // long inputs and the sizes around 2^8 and 2^16 (digest results); >= 300 KiB once per routine
+    for (size_t n : {255u, 256u, 257u, 65535u, 65536u, 65537u})
+    {
+        printf("hlong %zu %u %u\n", n, 1 + 2 * (unsigned)r.below(128), (unsigned)r.below(256));
+        printf("blong %s %zu %u %u\n", n % 2 ? "std" : "url", n, 1 + 2 * (unsigned)r.below(128), (unsigned)r.below(256));
+    }
+    printf("hlong %u %u %u\n", 300u * 1024u, 1 + 2 * (unsigned)r.below(128), (unsigned)r.below(256));
+    printf("blong std %u %u %u\n", 300u * 1024u + 1, 1 + 2 * (unsigned)r.below(128), (unsigned)r.below(256));
+    printf("blong url %u %u %u\n", 300u * 1024u + 2, 1 + 2 * (unsigned)r.below(128), (unsigned)r.below(256));
+    if (th)
+    {
+        printf("blong url %u 1 0\n", 300u * 1024u);
+        printf("blong std %u 255 7\n", 1024u * 1024u + 2);
+        printf("hlong %u 3 1\n", 500001u);
+    }
+}
 
 static void gen(rng &r, const std::string &tier)
 {
@@ -676,6 +1102,11 @@ static void gen(rng &r, const std::string &tier)
         }
         emit(url ? "budec" : "bdec", t);
     }
+    gen_round3(r, th);
 }
 
-int main(int argc, char **argv) { return main_(argc, argv, gen, run_op); }
+int main(int argc, char **argv)
+{
+    main_entered = true;
+    return main_(argc, argv, gen, run_op);
+}
